@@ -9,8 +9,8 @@ from mutants import MUTANTS
 out = []
 out.append("### 9.1 Changes seeded by independent sub-agents\n")
 out.append("Each sub-agent was given only the text of one property and a scratch worktree; it produced a change that compiles, passes the existing suite, and breaks the property only under specific conditions, plus a demonstration test. `seedtool.py` re-confirmed all of that in a fresh scratch copy (suite passes with the change; demonstration fails with it and passes without it) and then ran the owning checks' quick tier against the changed tree.\n")
-out.append("| seeded change | property | needs, to manifest | detected by (quick tier) | notes |")
-out.append("|---|---|---|---|---|")
+out.append("| seeded change | property | needs, to manifest | detected when filed | detected now (quick tier) | notes |")
+out.append("|---|---|---|---|---|---|")
 notes = {}
 try:
     notes = json.load(open(os.path.join(V, "seeded", "notes.json")))
@@ -21,7 +21,8 @@ for d in sorted(glob.glob(os.path.join(V, "seeded", "*", "meta.json"))):
     name = os.path.basename(os.path.dirname(d))
     det = ", ".join(m.get("detected_by") or []) or "**not detected**"
     ran = ", ".join("%s:%s" % (k, {0: "pass", 1: "VIOLATION", 2: "undecided"}.get(v["rc"], v["rc"])) for k, v in m.get("checks_run", {}).items())
-    out.append("| `%s` | %s | %s | %s | %s |" % (name, m["property"], m.get("needs_to_manifest", ""), det, notes.get(name, "ran " + ran)))
+    first = ", ".join(m.get("first_detected_by", m.get("detected_by") or [])) or "none"
+    out.append("| `%s` | %s | %s | %s | %s | %s |" % (name, m["property"], m.get("needs_to_manifest", ""), first, det, notes.get(name, "ran " + ran)))
 out.append("")
 out.append("### 9.2 Hand-written mutants (`mutants.py`, run by `./selftest`)\n")
 res = {}
